@@ -359,7 +359,7 @@ std::string body_C02(Ctx& c, CaseIn& in) {
   // in the library, plus a deterministic bound on the number of primitive calls), so that a decoder that never
   // terminates is reported instead of hanging the check.
   const bool counted = t.supports_reader(R_CPed);
-  for (int k : {R_CPed, R_CBuf, R_Buf, R_Ped, R_BBuf, R_BPed, R_Log, R_BLog}) {
+  for (int k : {R_CPed, R_CBuf, R_Buf, R_Ped, R_BBuf, R_BPed, R_Log, R_BLog, R_BStr}) {
     if (!t.supports_reader(k)) continue;
     if (counted && (k == R_Buf || k == R_Ped || k == R_BBuf || k == R_BPed)) continue;
     kinds.push_back(k);
@@ -370,7 +370,10 @@ std::string body_C02(Ctx& c, CaseIn& in) {
   const uint64_t budget = 4096 + (64 + 4 * (uint64_t)t.elem_max) * (uint64_t)mu.bytes.size();
   for (int rk : kinds) {
     std::vector<size_t> limits = {mu.bytes.size()};
-    if (rk_bounded(rk)) { limits.push_back(mu.bytes.size() / 2); limits.push_back(mu.bytes.size() + 1 + (size_t)tp.below(100)); limits.push_back(SIZE_MAX - 1); }
+    // A BoundedReader over a stream is the bound itself (the stream's Ensure cannot refuse anything), so only
+    // limits close to the input length are in the statement's "constant multiple of the input length".
+    if (rk == R_BStr) { limits.push_back(mu.bytes.size() / 2); limits.push_back(mu.bytes.size() + 1 + (size_t)tp.below(16)); }
+    else if (rk_bounded(rk)) { limits.push_back(mu.bytes.size() / 2); limits.push_back(mu.bytes.size() + 1 + (size_t)tp.below(100)); limits.push_back(SIZE_MAX - 1); }
     for (size_t lim : limits) {
       auto obj = t.make();
       c.rep.current_detail = fmt("Read of %s via %s limit %zu [%s] input %s", t.name.c_str(), rk_name(rk), lim, how.c_str(), hex(mu.bytes).substr(0, 160).c_str());
